@@ -107,7 +107,9 @@ CHECKS = {
     text="Proof: the legacy DSD_Complex canonical-form search (in-place rotation, first-occurrence table, memory check) "
          "returns exactly the canonical form of the current API on every well-formed aligned input; with a complex "
          "registered, a request is reported as DSDDuplicationError exactly when it is rotation-equivalent (i.e. when the "
-         "current API would resolve it to the existing object); the legacy SequenceConstraint complements (tables "
+         "current API would resolve it to the existing object); the rotation distance the legacy object records denotes what "
+         "`ComplexS.turns` denotes (that many turns of the common canonical form give the presented representation, and it is "
+         "smaller than the number of strands; distances are also compared as representations on every run); the legacy SequenceConstraint complements (tables "
          "regenerated from its behaviour on every run) agree with iupac_utils on sequences of every length wherever both "
          "are defined. Pair table, loop index, kernel string, size, connectivity, exterior/enclosed domains and split "
          "components of the legacy objects are tied by correspondence to the same model functions as the current API "
